@@ -2611,6 +2611,11 @@ task update from user %d for task from user %d failed: permission denied",
 	} else if (uc.u == NOT_A_UID && (uc.u = oc.u, false)) {
 		/* not reached */
 
+	} else if (UNLIKELY((uc = compl_uid(uc.u)).u == NOT_A_UID)) {
+		/* refresh the actual credentials again, and do it before
+		 * anything happens to the table of tasks */
+		ECHS_ERR_LOG("user %u has vanished", oc.u);
+		return -1;
 	} else if (UNLIKELY(t->strm == NULL)) {
 		ECHS_ERR_LOG("submitted ical object is not a task");
 		return -1;
@@ -2631,11 +2636,6 @@ task update from user %d for task from user %d failed: permission denied",
 		res->nrun = 0U;
 	} else if (UNLIKELY((res = make_task(t->oid)) == NULL)) {
 		ECHS_ERR_LOG("cannot submit new task");
-		return -1;
-	}
-	/* refresh the actual credentials again */
-	if (UNLIKELY((uc = compl_uid(uc.u)).u == NOT_A_UID)) {
-		ECHS_ERR_LOG("user %u has vanished", oc.u);
 		return -1;
 	}
 	/* massage away the owner in the task and
